@@ -79,6 +79,16 @@ func runC10(c *Ctx) {
 			// the KeyCertificate methods, on a certificate carrying this code
 			k := kcFor(code, code)
 			mOK := k != nil && k.SignatureSize() == a && k.SigningPublicKeySize() == b && k.CryptoSize() == cc
+			// a signing-type lookup must not depend on the partner crypto code, nor the reverse:
+			// known, experimental-range and unknown partners
+			for _, partner := range []int{4, 0, 65280, 12345} {
+				if ks := kcFor(code, partner); ks != nil {
+					mOK = mOK && ks.SignatureSize() == a && ks.SigningPublicKeySize() == b
+				}
+				if kcr := kcFor([]int{7, 0, 65281, 12345}[partner%4], code); kcr != nil {
+					mOK = mOK && kcr.CryptoSize() == cc
+				}
+			}
 			if k != nil {
 				cp2, cerr := k.CryptoPublicKeySize()
 				mOK = mOK && (cerr == nil) == ok4 && (cerr != nil || cp2 == d)
